@@ -69,9 +69,14 @@ class PackageLoader(BaseLoader):
 
         for path in self.paths:
             source_path = path.joinpath(str(template_path))
-            if source_path.is_file():
-                # MyPy seems to think source_path has `Any` type :(
-                return source_path  # type: ignore
+            try:
+                if source_path.is_file():
+                    # MyPy seems to think source_path has `Any` type :(
+                    return source_path  # type: ignore
+            except OSError:
+                # A name the file system can't look up, one that is too long for
+                # example, does not name a template.
+                continue
 
         raise TemplateNotFoundError(template_name)
 
